@@ -143,8 +143,8 @@ def run_verus_unit(root, repo, name, tier, seed, work, want_canaries=True):
             tags = f["clause_tags"] or meta.get("tags", []) or cfg.get("default_tags", [])
             clause = ""
             for (ls, le, prim, label) in f["spans"]:
-                if label and ("failed" in label) and le - ls <= 3:
-                    clause = " ".join(text.split("\n")[ls - 1].split())
+                if label and ("failed" in label):
+                    clause = " ".join(text.split("\n")[ls - 1].split()) + (" ..." if le > ls else "")
             oid = "%s:%s:%s" % (name, key or "?", hashlib.sha1((f["message"] + "|" + re.sub(r"//.*", "", clause)).encode()).hexdigest()[:8])
             if meta.get("drifted"):
                 drift_fail = True
